@@ -250,6 +250,35 @@ def body(run):
     failing, nt = run.corr('grid', 'Corr.CheckC18', cases)
     for k2 in failing[:5]:
         run.add_break('correspondence-break', 'processing grid resolution / band round trip differs from Grid.ProcGrid.resolve / Bands.Match', metas[k2])
+    # ---- several source files in one command-line invocation: each file's parameter image sits on the grid `auto` resolves to for THAT file
+    #      (the coarser of that source and the reference), and the outputs record it
+    from harness import impl_multi as im
+    from homonim import utils as hutils
+    mrng = run.rng('multi')
+    files = im.make_files(run.work, mrng)
+    for oi, order in enumerate([('fine3', 'coarse4'), ('coarse4', 'fine3'), ('fine4', 'coarse4', 'fine3')]):
+        od = run.work / f'multi_out{oi}'
+        od.mkdir()
+        code, outp, seen = im.cli_fuse([files[k_] for k_ in order], files['ref'], od, extra=['-pi'])
+        run.count_case(('cli-multi', oi), True, dict(order=list(order)) if oi == 0 else None)
+        problems = {}
+        if code != 0:
+            problems['exit code'] = code
+        for k_, rec in zip(order, seen):
+            exp_grid = 'src' if k_.startswith('coarse') else 'ref'
+            if rec['proc_crs'] != exp_grid:
+                problems[f'{k_}: processing grid'] = dict(got=rec['proc_crs'], expected=exp_grid)
+            outs = sorted(od.glob(f'{Path(rec["src"]).stem}_FUSE_*_PARAM.tif'))
+            if len(outs) != 1:
+                problems[f'{k_}: parameter image'] = [o_.name for o_ in outs]
+                continue
+            with rio.open(outs[0]) as pds, rio.open(files[k_]) as sds, rio.open(files['ref']) as rds:
+                coarser = max(abs(sds.res[0]), abs(rds.res[0]))
+                if abs(abs(pds.res[0]) - coarser) > 1e-9 or pds.tags().get('FUSE_PROC_CRS', '').lower() not in (exp_grid, f'proccrs.{exp_grid}'):
+                    problems[f'{k_}: parameter image grid'] = dict(res=pds.res[0], expected_res=coarser, tag=pds.tags().get('FUSE_PROC_CRS'))
+        if problems:
+            run.add_violation('outputs are misplaced, mis-ordered or do not describe themselves', dict(files=list(order), via='command line, several source files'),
+                              observed=problems, signature=dict(kind='profile', part='cli-multi-grid'))
     run.cov['rule'] = ('real fusions (1..4 bands, reference bands permuted with wavelength tags in 70 %, requested grid auto/src/ref, 3 models, output profiles): '
                        'geometry of both outputs, band count and order by content, every effective setting in the FUSE_* tags, wavelength tags copied, '
                        'compare(corrected, reference) band pairs, the Gallina band matcher on the metadata actually written; every third pair re-run with the '
